@@ -146,17 +146,24 @@ DEFAULT_FEATURES = frozenset({
 def generate(rng, ncells=None, features=None):
     """features: optional set restricting what may appear, from
     {"transforms","periodic","boundary","universes","lattice","complements","thermal","data_placement","shortcuts","message","trcl"}
-    ("lattice", "lat_simple" and "trcl" are not in the default set; "lat_simple" = lattice cells filled with one universe)"""
+    ("lattice", "lat_simple", "trcl" and "shared_numbers" are not in the default set; "lat_simple" = lattice cells filled
+    with one universe; "shared_numbers" = cell, surface, material, transform and universe numbers are all drawn from one
+    small pool (1..6 or so), so that numbers of DIFFERENT kinds coincide: fill=5 (5), `5 5 -1.0 -5 u=5`, a matrix fill with
+    an entry equal to its transform number, a transform pointer equal to a periodic partner's number; more transforms,
+    universes, fill transforms and pointers than by default)"""
     F = features if features is not None else DEFAULT_FEATURES
+    SH = "shared_numbers" in F
     ncells = ncells or rng.randint(2, 7)
     nsurf = rng.randint(3, 8)
     nmat = rng.randint(1, 3)
     mode = ["n"] if rng.random() < 0.5 else ["n", "p"]
 
     def fresh(k, lo=1, hi=99):
+        if SH:
+            return sorted(rng.sample(range(1, max(7, k + 2)), k))
         return sorted(rng.sample(range(lo, hi), k))
 
-    tr_numbers = fresh(rng.randint(1, 2), 1, 30) if "transforms" in F and rng.random() < 0.6 else []
+    tr_numbers = fresh(rng.randint(1, 3) if SH else rng.randint(1, 2), 1, 30) if "transforms" in F and rng.random() < (0.9 if SH else 0.6) else []
     transforms = []
     for n in tr_numbers:
         k = rng.choice([3, 3, 12, 9])
@@ -175,12 +182,12 @@ def generate(rng, ncells=None, features=None):
         s = {"number": n, "modifier": "", "pointer": None, "mnemonic": mn, "constants": consts}
         if "boundary" in F and rng.random() < 0.12:
             s["modifier"] = rng.choice(["*", "+"])
-        if tr_numbers and rng.random() < 0.25:
+        if tr_numbers and rng.random() < (0.45 if SH else 0.25):
             s["pointer"] = rng.choice(tr_numbers)
         surfaces.append(s)
     if "periodic" in F:
         planes = [s for s in surfaces if s["mnemonic"] in ("px", "py", "pz") and s["pointer"] is None and not s["modifier"]]
-        if len(planes) >= 2 and rng.random() < 0.4:
+        if len(planes) >= 2 and rng.random() < (0.8 if SH else 0.4):
             a, b = planes[0], planes[1]
             b["mnemonic"] = a["mnemonic"]
             a["pointer"] = -b["number"]
@@ -196,7 +203,10 @@ def generate(rng, ncells=None, features=None):
         materials.append({"number": n, "comps": comps, "mt": mt})
 
     cell_numbers = fresh(ncells, 1, 300)
-    universes = fresh(rng.randint(1, 2), 1, 50) if "universes" in F and ncells >= 3 and rng.random() < 0.5 else []
+    universes = fresh(rng.randint(1, 3) if SH else rng.randint(1, 2), 1, 50) if "universes" in F and ncells >= 3 and rng.random() < (0.9 if SH else 0.5) else []
+    if SH and universes and tr_numbers and rng.random() < 0.7:
+        # a universe that carries the number of a transform (TRn places universe n: a common habit)
+        universes = sorted(set(universes[1:]) | {rng.choice(tr_numbers)})
     cells = []
     for i, n in enumerate(cell_numbers):
         comp = cell_numbers[:i] if "complements" in F else []
@@ -245,10 +255,12 @@ def generate(rng, ncells=None, features=None):
             c["u"] = rng.choice(universes)
         used = sorted({c["u"] for c in members})
         for c in cells[: len(cells) // 2]:
-            if rng.random() < 0.5:
+            if rng.random() < (0.8 if SH else 0.5):
                 c["fill"] = rng.choice(used)
-                if tr_numbers and rng.random() < 0.3:
+                if tr_numbers and rng.random() < (0.7 if SH else 0.3):
                     c["fill_tr"] = rng.choice(tr_numbers)
+                    if SH and c["fill"] in tr_numbers and rng.random() < 0.6:
+                        c["fill_tr"] = c["fill"]  # fill=5 (5)
     if "lat_simple" in F:
         # (C09) lattice cells filled with ONE universe: lattice cells have FILL (well-formedness); hexahedral
         # geometry is MCNP's business, not the reader's
@@ -265,9 +277,13 @@ def generate(rng, ncells=None, features=None):
                 c["lat"] = rng.choice([1, 2])
                 c["fill"] = [[i0, i0 + ni - 1], [j0, j0 + nj - 1], [0, 0], [rng.choice(used) for _ in range(ni * nj)]]
                 c["fill_tr"] = None
+                if SH and tr_numbers and rng.random() < 0.6:
+                    # a matrix fill with a transform; preferably one whose number is also a matrix entry
+                    both = [t for t in tr_numbers if t in c["fill"][3]]
+                    c["fill_tr"] = rng.choice(both or tr_numbers)
     if "trcl" in F and tr_numbers:
         for c in cells:
-            if rng.random() < 0.15:
+            if rng.random() < (0.35 if SH else 0.15):
                 c["trcl"] = rng.choice(tr_numbers)
     placement = {k: "cell" for k in ("imp", "vol", "u", "lat", "fill")}
     if "data_placement" in F:
@@ -294,7 +310,7 @@ def generate(rng, ncells=None, features=None):
         "message": ["message: outp=o.out", "  runtpe=r.run"] if "message" in F and rng.random() < 0.2 else None,
         "title": rng.choice(["Generated problem", "test case 42 (verif)", "pin cell - variant", "a title with $ and & and c"]),
         "mode": mode, "cells": cells, "surfaces": surfaces, "materials": materials, "transforms": transforms,
-        "placement": placement, "extra_data": extra, "progressions": "progressions" in F,
+        "placement": placement, "extra_data": extra, "progressions": "progressions" in F, "shared_numbers": SH,
     }
 
 
@@ -392,10 +408,15 @@ def cards(gp, rng, redundant=0.15, shortcuts=True):
         if c.get("lat") is not None and place["lat"] == "cell":
             params.append(("lat", [str(c["lat"])]))
         if place["fill"] == "cell" and isinstance(c["fill"], list):
-            params.append(("fill", [f"{a}:{b}" for a, b in c["fill"][:3]] + [str(u) for u in c["fill"][3]]))
+            v = [f"{a}:{b}" for a, b in c["fill"][:3]] + [str(u) for u in c["fill"][3]]
+            if c["fill_tr"] is not None:
+                v += ["(" + str(c["fill_tr"]) + ")"]
+            params.append(("fill", v))
         elif place["fill"] == "cell" and c["fill"] is not None:
             v = [str(c["fill"])]
-            if c["fill_tr"] is not None:
+            if c["fill_tr"] is not None and gp.get("shared_numbers") and rng.random() < 0.3:
+                v += ["(", str(c["fill_tr"]), ")"]  # blanks inside the parentheses: fill=5 ( 5 )
+            elif c["fill_tr"] is not None:
                 v += ["(" + str(c["fill_tr"]) + ")"]
             params.append(("fill", v))
         if c["trcl"] is not None:
